@@ -262,8 +262,11 @@ def run(rep, tier):
             rep.nontriv(c["sig"])
     rep.sample({"sig": cases_r[0]["sig"], "rust": render(0, cases_r[0]["sig"], L), "expected_edges": cases_r[0]["edges"],
                 "accepted": cases_r[0]["accepted"]})
-    if tier == "thorough":
-        for cfg, LL in (("emit_2p.cfg", ["a", "b"]), ("emit_3l.cfg", ["a", "b", "c"])):
+    # three lifetimes: outlives graphs with cycles, redundant bounds and diamonds (the worklist of
+    # all_longer_lifetimes meets a lifetime twice only from three lifetimes on)
+    for cfg, LL in ((("emit_3l_quick.cfg", ["a", "b", "c"]),) if tier == "quick" else
+                    (("emit_3l_quick.cfg", ["a", "b", "c"]), ("emit_2p.cfg", ["a", "b"]), ("emit_3l.cfg", ["a", "b", "c"]))):
+        if True:
             e2 = lib.tlc("life", "MC_Lifetimes", cfg, workers=2, coverage=False, heap="8g")
             lib.tlc_expect_ok(e2, cfg)
             rep.add_tlc("Lifetimes/" + cfg, e2)
